@@ -1,2 +1,114 @@
-def main (_args : List String) : IO UInt32 := do
-  IO.eprintln "stub"; return 2
+import DEngine.Model.Proto
+import DEngine.Model.KvCrash
+/-
+  Driver of family `kvcrash` (C15).
+  case   : `eng=<file|rocks> cp=<j>|op;op;…`   ops: a:<cmd>  ckpt  flush  reopen  tick
+           cmd: put,k,v,ttl|-  del,k  cas,k,exp|-,new  noop ; crash at the j-th crash point (last if beyond)
+  output : `cp=<name> n=<entries started> la=<recovered applied index> rec=<kv> fin=<kv after re-apply>`
+-/
+open DEngine DEngine.Proto DEngine.MiniKv DEngine.KvCrash
+
+def parseCmd (s : String) : Option Cmd :=
+  match s.splitOn "," with
+  | ["put", k, v, t] => do pure (.put (← k.toNat?) (← v.toNat?) (← parseOpt t))
+  | ["del", k] => do pure (.del (← k.toNat?))
+  | ["cas", k, e, v] => do pure (.cas (← k.toNat?) (← parseOpt e) (← v.toNat?))
+  | ["noop"] => some .noop
+  | _ => none
+
+def parseOp (s : String) : Option Op :=
+  if s == "ckpt" then some .ckpt
+  else if s == "flush" then some .flush
+  else if s == "reopen" then some .reopen
+  else if s == "tick" then some .tick
+  else match s.splitOn ":" with
+    | ["a", c] => (parseCmd c).map .apply
+    | _ => none
+
+structure Case where
+  eng : Eng
+  cp : Nat
+  ops : List Op
+
+def parseCase (line : String) : Option Case :=
+  match line.splitOn "|" with
+  | [hd, body] => do
+    let fs := fields hd
+    let eng ← match lookup fs "eng" with
+      | some "file" => some Eng.file
+      | some "rocks" => some Eng.rocks
+      | _ => none
+    let cp ← natField fs "cp"
+    let ops ← (if body.isEmpty then some [] else (body.splitOn ";").mapM parseOp)
+    pure { eng, cp, ops }
+  | _ => none
+
+def cmdsOf (ops : List Op) : List Cmd := ops.filterMap fun o => match o with | .apply c => some c | _ => none
+
+def modelLine (line : String) : String :=
+  match parseCase line with
+  | none => "bad-case\t-"
+  | some c =>
+    match crashAt c.eng c.ops c.cp with
+    | none => "noimage\tnoimage"
+    | some v =>
+      let cmds := cmdsOf c.ops
+      let tags :=
+        [v.cp,
+         if v.la == v.n then "index-current" else "index-behind",
+         if sameKvB v.recKv (ref cmds v.la) then "consistent" else "inconsistent",
+         if sameKvB v.fin (ref cmds v.n) then "exactly-once" else "reapply-differs"] ++
+        (if ((cmds.take v.n).drop v.la).any (fun c => match c with | .cas .. => true | _ => false)
+          then ["cas-reapplied"] else [])
+      s!"cp={v.cp} n={v.n} la={v.la} rec={showMap "=" v.recKv} fin={showMap "=" v.fin}\t{",".intercalate tags}"
+
+def outFields (s : String) : List (String × String) :=
+  (s.splitOn " ").filterMap fun tok =>
+    match tok.splitOn "=" with
+    | k :: v :: rest => some (k, "=".intercalate (v :: rest))
+    | _ => none
+
+def parseMap (s : String) : Option AMap :=
+  if s == "-" then some []
+  else (s.splitOn ",").mapM fun kv =>
+    match kv.splitOn "=" with
+    | [k, v] => do pure ((← k.toNat?), (← v.toNat?))
+    | _ => none
+
+def engName : Eng → String
+  | .file => "file"
+  | .rocks => "rocks"
+
+/-- C15 on the implementation's output: (1) after restart + re-application of (la, n] the contents are
+those of applying 1..n exactly once; (2) the recovered contents are those of applying 1..la. -/
+def monitorC15 (c : Case) (out : String) : String :=
+  if out == "noimage" then "skip" else
+  let fs := outFields out
+  match lookup fs "cp", (lookup fs "n").bind String.toNat?, (lookup fs "la").bind String.toNat?,
+        (lookup fs "rec").bind parseMap, (lookup fs "fin").bind parseMap with
+  | some cp, some n, some la, some rec, some fin =>
+    let cmds := cmdsOf c.ops
+    let torn := cp == "persist_data:truncated" || cp == "persist_metadata:truncated"
+    if la > n then s!"bad applied-index-ahead-{engName c.eng}"
+    else if !(sameKvB fin (ref cmds n)) then
+      if torn then "bad checkpoint-torn-file" else s!"bad reapply-changes-state-{engName c.eng}"
+    else if !(sameKvB rec (ref cmds la)) then
+      if torn then "bad checkpoint-torn-file" else s!"bad applied-index-behind-data-{engName c.eng}"
+    else "ok"
+  | _, _, _, _, _ => if out == "panic" then "bad panic" else "bad impl-output-unparseable"
+
+def monitorLine (prop : String) (line : String) : String :=
+  match line.splitOn "\t" with
+  | [case, out] =>
+    match parseCase case with
+    | none => "bad-case"
+    | some c => if prop == "C15" then monitorC15 c out else "skip"
+  | _ => "bad-line"
+
+def main (args : List String) : IO UInt32 := do
+  let stdin ← IO.getStdin
+  let stdout ← IO.getStdout
+  match args with
+  | ["model"] => loop stdin stdout modelLine; return 0
+  | ["monitor", p] => loop stdin stdout (monitorLine p); return 0
+  | _ => IO.eprintln "usage: drv_kvcrash model | monitor <prop>"; return 2
